@@ -929,3 +929,256 @@ class Gen:
                 rejected += 1; self.count("rejected(magnitude)"); continue
             s = s2; stmts.append(st)
         return stmts
+
+
+# ------------------------------------------------------------------ orientation-complete proxy layer
+class ProxyLayer:
+    """Systematic (stratified) stream for the PROXY layer: every proxy (subrange, rows, columns, row, column, diag,
+    trans) applied to every matrix expression form in BOTH orientations, i.e. to the form itself and to trans(form)
+    (which the rewrite table turns into the form of the opposite orientation: column-major repeater, swapped outer
+    product, flipped concatenation, column-major scalar matrix, transposed dense proxy, ...), alone or nested in
+    an element-wise expression (scalar multiple, unary / binary function, sum, difference, scalar broadcast), with
+    non-square operand shapes and off-diagonal / non-square / empty / full / single-line index ranges.
+
+    Forms (FORMS): dense container row-major / column-major, repeat(v,k), outer_prod(u,v), to_diagonal(v),
+    identity, scalar matrix, prod(A,B), A|B, A&B, matrix + scalar (broadcast), repeat of a broadcast vector.
+    One statement per stratum (proxy, form, plain|trans); the element-wise wrapper, the index range class, the shapes,
+    the assignment form (= += -= with and without noalias) and the orientation of the target are drawn at random.
+    Targets are dedicated containers that never occur on a right-hand side (noalias is always legal).
+
+    Kept out (constructs the C++ type checker rejects or known findings, see EXCLUDED and tools/c01.py _defects):
+    an off-diagonal sub-range of a diagonal matrix (known finding C01-RANGEDIAG: only a==c, b==d is generated),
+    diag of anything containing a product (known finding C01-DIAGPROD), triangular views (matrix expressions only as the
+    first operand of a product)."""
+    SHAPES = [(3, 5), (5, 3), (4, 4), (2, 4), (4, 2)]       # closed under transposition
+    FORMS = ["dense_r", "dense_c", "repeat", "outer", "diagonal", "identity", "constant", "prod", "concat_right",
+             "concat_down", "broadcast", "repeat_broadcast"]
+    PROXIES = ["subrange", "rows", "columns", "row", "column", "diag", "trans"]
+    WRAPS = ["none", "none", "scale", "unary", "add_dense", "dense_add", "minus", "binary", "add_same", "add_scalar"]
+
+    def __init__(self, rng, excluded=None):
+        self.rng = rng; self.decls = []; self.orient = {}; self.stats = {}
+        self.excluded = excluded if excluded is not None else EXCLUDED
+        self.vec_by_size = {}; vid = 0
+        for n in (2, 3, 4, 5):
+            self.vec_by_size[n] = []
+            for _ in range(2):
+                self.decls.append(("v", vid, n)); self.vec_by_size[n].append(("VVar", vid, n)); vid += 1
+        self.tv = ("VVar", vid, 5); self.decls.append(("v", vid, 5))
+        self.mat_by = {}; mid = 0
+        for (r, c) in self.SHAPES:
+            for cm in (False, True):
+                self.decls.append(("m", mid, r, c)); self.orient[mid] = cm
+                self.mat_by[(r, c, cm)] = ("MVar", mid, r, c); mid += 1
+        self.tm = {}
+        for cm in (False, True):
+            self.decls.append(("m", mid, 5, 5)); self.orient[mid] = cm; self.tm[cm] = ("MVar", mid, 5, 5); mid += 1
+
+    def count(self, k): self.stats[k] = self.stats.get(k, 0) + 1
+    def const(self): return self.rng.choice([-3, -2, -1, 2, 3])
+
+    # ---- operands
+    def vec(self, n, simple=False):
+        rng = self.rng; u = rng.random()
+        cands = [x for x in self.vec_by_size.get(n, [])]
+        bigger = [x for k, l in self.vec_by_size.items() if k > n for x in l]
+        if not cands or (bigger and u < 0.15 and not simple):
+            x = rng.choice(bigger); a = rng.randint(0, x[2] - n); return ("VRange", x, a, a + n)
+        e = rng.choice(cands)
+        if simple or u < 0.6: return e
+        if u < 0.7: return ("VScale", self.const(), e)
+        if u < 0.8: return ("VAdd", e, rng.choice(cands))
+        if u < 0.9: return ("VUn", rng.choice(["FAbs", "FSqr"]), e)
+        return ("VAdd", e, ("VConst", n, self.const()))
+
+    def dense(self, r, c, cm=None):
+        """dense operand of shape r x c: container (orientation cm, None = any), transposed container or a
+        sub-range of a larger container"""
+        rng = self.rng; cands = []
+        for (R, C, o), m in self.mat_by.items():
+            if cm is not None and o != cm: continue
+            if (R, C) == (r, c): cands += [m] * 4
+            elif R >= r and C >= c:
+                a = rng.randint(0, R - r); b = rng.randint(0, C - c); cands.append(("MRange", m, a, a + r, b, b + c))
+        for (R, C, o), m in self.mat_by.items():
+            if cm is not None and o == cm: continue          # trans flips the orientation
+            if (C, R) == (r, c): cands += [("MTrans", m)] * 2
+        return rng.choice(cands) if cands else ("MConst", r, c, self.const())
+
+    def form(self, name, r, c):
+        rng = self.rng
+        if name == "dense_r": return self.dense(r, c, False)
+        if name == "dense_c": return self.dense(r, c, True)
+        if name == "repeat": return ("MRepeat", False, self.vec(c), r)
+        if name == "repeat_broadcast": return ("MRepeat", False, ("VAdd", self.vec(c, True), ("VConst", c, self.const())), r)
+        if name == "outer": return ("MOuter", self.vec(r), self.vec(c))
+        if name == "diagonal": return ("MDiagM", self.vec(r)) if r == c else None
+        if name == "identity": return ("MDiagM", ("VConst", r, 1)) if r == c else None
+        if name == "constant": return ("MConst", r, c, self.const())
+        if name == "prod":
+            k = rng.choice([2, 3, 4]); return ("MProd", 1, self.dense(r, k), self.dense(k, c))
+        if name == "concat_right":
+            a = rng.randint(1, c - 1) if c >= 2 else 0; return ("MConcat", True, self.dense(r, a), self.dense(r, c - a))
+        if name == "concat_down":
+            a = rng.randint(1, r - 1) if r >= 2 else 0; return ("MConcat", False, self.dense(a, c), self.dense(r - a, c))
+        if name == "broadcast": return ("MAdd", self.dense(r, c), ("MConst", r, c, self.const()))
+        raise ValueError(name)
+
+    def wrap(self, w, e):
+        rng = self.rng; r, c = mshape(e)
+        if w == "none": return e
+        if w == "scale": return ("MScale", self.const(), e)
+        if w == "unary": return ("MUn", rng.choice(["FAbs", "FSqr"]), e)
+        if w == "add_dense": return ("MAdd", e, self.dense(r, c))
+        if w == "dense_add": return ("MAdd", self.dense(r, c), ("MScale", self.const(), e))
+        if w == "minus": return ("MMinus", self.dense(r, c), e)
+        if w == "binary": return ("MBin", rng.choice(["BMul", "BMin", "BMax"]), e, self.dense(r, c))
+        if w == "add_same": return ("MAdd", e, ("MTrans", ("MRepeat", False, self.vec(r, True), c)))     # + column-major repeater
+        if w == "add_scalar": return ("MAdd", e, ("MConst", r, c, self.const()))
+        raise ValueError(w)
+
+    # ---- index ranges
+    def interval(self, n, cls):
+        """[a,b) inside [0,n) of class inner | empty | full | single"""
+        rng = self.rng
+        if cls == "empty": a = rng.randint(0, n); return a, a
+        if cls == "full": return 0, n
+        if cls == "single": a = rng.randrange(n); return a, a + 1
+        if n < 2: return 0, n
+        L = rng.randint(1, n - 1); a = rng.randint(0, n - L)        # proper, non-empty part
+        return a, a + L
+
+    def range2(self, R, C, diagonal_only=False):
+        """(a,b,c,d, class): off-diagonal / non-square blocks most of the time"""
+        rng = self.rng
+        if diagonal_only:
+            a, b = self.interval(min(R, C), rng.choice(["inner", "inner", "full", "empty", "single"])); return a, b, a, b, "diagonal-block"
+        u = rng.random()
+        if u < 0.62:
+            for _ in range(50):
+                a, b = self.interval(R, rng.choice(["inner", "inner", "single", "full"])); c, d = self.interval(C, rng.choice(["inner", "inner", "single", "full"]))
+                if a != c or b != d: return a, b, c, d, ("off-diagonal" if a != c else "non-square")
+        if u < 0.72: a, b = self.interval(R, "empty"); c, d = self.interval(C, "inner"); return a, b, c, d, "empty-rows"
+        if u < 0.82: a, b = self.interval(R, "inner"); c, d = self.interval(C, "empty"); return a, b, c, d, "empty-columns"
+        if u < 0.9: return 0, R, 0, C, "full"
+        a, b = self.interval(min(R, C), "inner"); return a, b, a, b, "diagonal-block"
+
+    # ---- one statement of a stratum
+    def expression(self, proxy, fname, transposed, wrapname=None, shape=None):
+        """(is_vector, term) or None when the stratum does not exist for the drawn shape"""
+        rng = self.rng
+        sq = fname in ("diagonal", "identity")
+        R, C = shape or ((4, 4) if sq else rng.choice(self.SHAPES))
+        f = self.form(fname, C, R) if transposed else self.form(fname, R, C)
+        if f is None: return None
+        e = ("MTrans", f) if transposed else f
+        w = wrapname or rng.choice(self.WRAPS)
+        has_diag = sq
+        has_prod = fname == "prod"
+        if proxy == "diag" and has_prod: return None                                   # C01-DIAGPROD
+        x = self.wrap(w, e)
+        if proxy == "subrange":
+            a, b, c, d, cls = self.range2(R, C, diagonal_only=has_diag); self.count("range:" + cls)
+            return False, ("MRange", x, a, b, c, d)
+        if proxy == "rows":
+            cls = rng.choice(["inner", "inner", "inner", "empty", "full", "single"]); a, b = self.interval(R, cls); self.count("rows:" + cls)
+            return False, ("MRows", x, a, b)
+        if proxy == "columns":
+            cls = rng.choice(["inner", "inner", "inner", "empty", "full", "single"]); a, b = self.interval(C, cls); self.count("columns:" + cls)
+            return False, ("MCols", x, a, b)
+        if proxy == "row": return True, ("VRow", x, rng.randrange(R))
+        if proxy == "column": return True, ("VCol", x, rng.randrange(C))
+        if proxy == "diag": return True, ("VDiag", x)
+        if proxy == "trans": return False, ("MTrans", x)
+        raise ValueError(proxy)
+
+    def nest(self, isvec, e):
+        """a second proxy / element-wise layer on top of a proxy expression"""
+        rng = self.rng
+        if isvec:
+            n = vsize(e); u = rng.random()
+            if u < 0.4 and n >= 1: a, b = self.interval(n, rng.choice(["inner", "single", "full", "empty"])); return True, ("VRange", e, a, b)
+            if u < 0.7: return True, ("VAdd", ("VScale", self.const(), e), self.vec(n, True) if n in self.vec_by_size else ("VConst", n, 1))
+            return True, ("VUn", "FSqr", e)
+        r, c = mshape(e); u = rng.random()
+        if u < 0.2 and r >= 1 and c >= 1:
+            a, b = self.interval(r, "inner"); c0, d = self.interval(c, "inner"); return False, ("MRange", e, a, b, c0, d)
+        if u < 0.35 and r >= 1: a, b = self.interval(r, "inner"); return False, ("MRows", e, a, b)
+        if u < 0.5 and c >= 1: a, b = self.interval(c, "inner"); return False, ("MCols", e, a, b)
+        if u < 0.6: return False, ("MTrans", e)
+        if u < 0.7 and r >= 1: return True, ("VRow", e, rng.randrange(r))
+        if u < 0.8 and c >= 1: return True, ("VCol", e, rng.randrange(c))
+        if u < 0.9: return False, ("MAdd", ("MScale", self.const(), e), ("MConst", r, c, self.const()))
+        return False, ("MUn", "FAbs", e)
+
+    def statement(self, isvec, e):
+        rng = self.rng
+        o = rng.choice(["OpSet", "OpSet", "OpSet", "OpAdd", "OpSub", "OpAdd", "OpSub", "OpMul"]); na = rng.random() < 0.5
+        if isvec:
+            n = vsize(e); t = self.tv if n == 5 else ("VRange", self.tv, 0, n)
+            if o == "OpMul" and t[0] != "VVar": na = True          # plain *= on a vector proxy temporary is F9
+            return ("SAssignV", na, o, t, e)
+        r, c = mshape(e); T = self.tm[rng.random() < 0.5]
+        t = T if (r, c) == (5, 5) else ("MRange", T, 0, r, 0, c)
+        return ("SAssignM", na, o, t, e)
+
+    def strata(self):
+        return [(p, f, tr) for p in self.PROXIES for f in self.FORMS for tr in (False, True)]
+
+    def program(self, strata, nested=0.2):
+        """initialisation (element sets, quiet) + one accepted statement per stratum (a stratum that cannot be realised,
+        e.g. a diagonal matrix of non-square shape, is skipped); returns (stmts, quiet)"""
+        rng = self.rng; stmts = []
+        s = Env()
+        for d in self.decls:
+            if d[0] == "v":
+                s.v[d[1]] = [0] * d[2]
+                for i in range(d[2]): stmts.append(("SSetV", d[1], i, rng.choice([-4, -3, -2, -1, 1, 2, 3, 4]) if d[2] < 5 or d[1] != self.tv[1] else 0))
+            else:
+                s.m[d[1]] = [[0] * d[3] for _ in range(d[2])]
+                istarget = any(d[1] == t[1] for t in self.tm.values())
+                for i in range(d[2]):
+                    for j in range(d[3]):
+                        stmts.append(("SSetM", d[1], i, j, 1 if istarget else rng.randint(-4, 4)))
+        # vectors with pairwise distinct entries: an index shift always changes the value
+        for n, l in self.vec_by_size.items():
+            for x in l:
+                vals = rng.sample([-5, -4, -3, -2, -1, 1, 2, 3, 4, 5], n)
+                for i in range(n): stmts[[k for k, st in enumerate(stmts) if st[0] == "SSetV" and st[1] == x[1] and st[2] == i][0]] = ("SSetV", x[1], i, vals[i])
+        for st in stmts: wr(s, ("v", st[1], st[2]) if st[0] == "SSetV" else ("m", st[1], st[2], st[3]), st[-1])
+        quiet = len(stmts)
+        for (p, f, tr) in strata:
+            for _try in range(6):
+                r = self.expression(p, f, tr)
+                if r is None: continue
+                isvec, e = r
+                if rng.random() < nested: isvec, e = self.nest(isvec, e)
+                if excluded_term(e, self.excluded): continue
+                st = self.statement(isvec, e)
+                try: s2, _ = exec_stmt(s, st)
+                except Reject:
+                    st = st[:2] + ("OpSet",) + st[3:]
+                    try: s2, _ = exec_stmt(s, st)
+                    except Reject: continue
+                s = s2; stmts.append(st); self.count("%s(%s%s)" % (p, "trans " if tr else "", f)); break
+        return stmts, quiet
+
+
+# constructs of the proxy layer that the unchanged tree rejects at compile time (probed with tools/c01.py --probe-proxy;
+# each entry: a predicate name of excluded_term and the reason), plus the two known findings
+EXCLUDED = []
+
+
+def heads_under(t, stop=()):
+    """constructor heads of t and its sub-terms"""
+    out = set()
+    if isinstance(t, tuple) and t and isinstance(t[0], str):
+        out.add(t[0])
+        for x in t[1:]: out |= heads_under(x)
+    return out
+
+
+def excluded_term(e, excluded):
+    for pred in excluded:
+        if pred(e): return True
+    return False
